@@ -70,8 +70,9 @@ def effect_provenance(rep, probe_out):
     npaths = sum(v["paths"] for v in stats.values())
     neff = sum(v["effects"] for v in stats.values())
     rep.programs += npaths
-    name = ("effect provenance: on every path of 9 writing operations (%d paths, %d effects) each created / written / renamed / removed path is a term of "
-            "the addressed bucket, a temporary file or a record of the request's own upload id" % (npaths, neff))
+    name = ("effect provenance: on every path of 9 writing operations and of get / head / copy / delete (%d paths, %d effects and reads) each created / written / "
+            "renamed / removed path is a term of the addressed bucket, a temporary file or a record of the request's own upload id, and each opened / "
+            "read / stat-ed path belongs to the addressed bucket or is the copy source the request names" % (npaths, neff))
     if not findings:
         rep.obligation(name, "rsx+z3", "holds", time.time() - t0, detail=stats, queries=npaths, states=npaths)
         return
